@@ -4733,7 +4733,13 @@ void dtw_dba_ptrs(seq_t **ptrs, idx_t nb_ptrs, idx_t* lengths,
     seq_t avg_step;
     idx_t path_length;
 
+    // The compact array is widest for the largest length difference, not always for the longest series
     idx_t wps_length = dtw_settings_wps_length(t, max_length, settings);
+    for (r_idx=0; r_idx<nb_ptrs; r_idx++) {
+        if (dtw_settings_wps_length(t, lengths[r_idx], settings) > wps_length) {
+            wps_length = dtw_settings_wps_length(t, lengths[r_idx], settings);
+        }
+    }
     wps = (seq_t *)malloc(wps_length * sizeof(seq_t));
 
     for (pi=0; pi<t; pi++) {
